@@ -116,12 +116,14 @@ func cmdCheck(args []string) int {
 	only := fs.String("harness", "", "run only harness functions matching this substring")
 	noReplay := fs.Bool("no-replay", false, "skip native replay (debug)")
 	verbose := fs.Bool("v", false, "verbose")
+	evDir := fs.String("evidence-dir", "", "write the evidence file to this directory instead of $VERIF_DIR/evidence (used when checking seeded changes)")
 	var id string
 	if len(args) > 0 && !strings.HasPrefix(args[0], "-") {
 		id = args[0]
 		args = args[1:]
 	}
 	fs.Parse(args)
+	evidenceDir = *evDir
 	if id == "" {
 		fmt.Fprintln(os.Stderr, "missing property id")
 		return 2
@@ -307,6 +309,7 @@ func cmdCheck(args []string) int {
 }
 
 var witnessStats [2]int
+var evidenceDir string
 
 func crossCheck(r *HarnessResult) {
 	type job struct {
@@ -634,9 +637,13 @@ func writeEvidence(id, tier string, seed int, prog *Program, results []*HarnessR
 		"property_id": id, "tier": tier, "seed": seed, "level": "model_checking",
 		"coverage": cov, "assumptions": assumptions, "wall_s": wall.Seconds(), "violations": nviol,
 	}
-	os.MkdirAll(filepath.Join(verifDir, "evidence"), 0o755)
+	dir := filepath.Join(verifDir, "evidence")
+	if evidenceDir != "" {
+		dir = evidenceDir
+	}
+	os.MkdirAll(dir, 0o755)
 	data, _ := json.MarshalIndent(ev, "", " ")
-	os.WriteFile(filepath.Join(verifDir, "evidence", id+".json"), data, 0o644)
+	os.WriteFile(filepath.Join(dir, id+".json"), data, 0o644)
 }
 
 func dedupe(xs []string) []string {
